@@ -3,6 +3,8 @@
 //! real API with seeded random inputs, and record NDJSON traces that TLC validates (V direction).
 mod ex;
 mod c01;
+mod c05;
+mod smt;
 mod c06;
 mod c07;
 mod c08;
@@ -25,6 +27,8 @@ fn main() {
     match args[0].as_str() {
         "c01" => c01::run(rest),
         "c13" => c01::run_c13(rest),
+        "c05" => c05::run(rest),
+        "c14" => c05::run_c14(rest),
         "c06" => c06::run(rest),
         "c07" => c07::run(rest),
         "c08" => c08::run(rest),
